@@ -177,6 +177,7 @@ NOTSAN void store_release_table(const void *h, const void *p) {
     ++g_incallback;
     Store *s = (Store *)h;
     ++s->releases;
+    if (s->release_forbidden) violation("C16:release-through-short-ops", strf("release_table called although the ops structure handed to the constructor ends before that member (api=%s)", g_api_name));
     auto it = s->live.find(p);
     if (it == s->live.end()) {
         event("release_table", 0, 0, u64(s->id));
